@@ -236,6 +236,217 @@ Definition ow_tx_state_request_line (connect : bool) (hsh : ow_hpshape) (psh : o
     ow_ret (true, tx2)
   end.
 
+(* ------------------------------------------------------------------ htp_response_generic.c *)
+Definition otx_set_res_hdrs (tx : ow_tx) (rh : option ow_tbl) (hv : list ow_hdr) : ow_tx :=
+  ow_mk_tx (otx_self tx) (otx_conn tx) (otx_connp tx) (otx_req_strs tx) (otx_uri_raw tx) (otx_uri tx) (otx_auth_user tx) (otx_auth_pass tx)
+        (otx_req_hdrs tx) (otx_req_hvals tx) (otx_params tx) (otx_pvals tx) (otx_cookies tx) (otx_cvals tx) (otx_hook_req tx) (otx_hook_res tx)
+        (otx_res_strs tx) rh hv (otx_rep tx).
+
+(* htp_parse_response_header_generic: unlike the request twin BOTH copies are made before either is tested;
+   prelogs: the htp_log calls before them (missing colon, empty name, LWS after name, name not a token -- once per
+   transaction --, NUL in the value) *)
+Definition ow_parse_response_header (log_on : bool) (prelogs : nat) (connp : ow_oid) (c : ow_conn) (h : ow_hdr)
+  : ow_M (bool * ow_conn * ow_hdr) :=
+  c1 <- ow_log_n prelogs log_on connp c ;;
+  ow_use (ohd_self h) ;;;
+  n <- ow_bstr_dup_mem ;;
+  v <- ow_bstr_dup_mem ;;
+  if ow_isnull n || ow_isnull v then
+    ow_free n ;;; ow_free v ;;; ow_ret (false, c1, ow_mk_hdr (ohd_self h) n v)       (* h keeps the released pointer(s) *)
+  else ow_ret (true, c1, ow_mk_hdr (ohd_self h) n v).
+
+(* htp_process_response_header_generic; rep = out_tx->res_header_repetitions; result: (HTP_OK?, conn, tx, rep) *)
+Definition ow_process_response_header (log_on : bool) (sh : ow_hshape) (connp : ow_oid) (c : ow_conn) (tx : ow_tx) (rep : nat)
+  : ow_M (bool * ow_conn * ow_tx * nat) :=
+  hs <- ow_malloc ;;
+  match hs with
+  | None => ow_ret (false, c, tx, rep)
+  | Some _ =>
+    r <- ow_parse_response_header log_on (ohs_prelogs sh) connp c (ow_mk_hdr hs None None) ;;
+    let '(ok, c1, h) := r in
+    if negb ok then ow_free hs ;;; ow_ret (false, c1, tx, rep) else
+    ow_use connp ;;; ow_use (otx_self tx) ;;;
+    let free_h := ow_free (ohd_name h) ;;; ow_free (ohd_value h) ;;; ow_free (ohd_self h) in
+    match (match ohs_existing sh with Some i => match nth_error (otx_res_hvals tx) i with Some he => Some (i, he) | None => None end | None => None end) with
+    | Some (i, he) =>
+      ow_use (ohd_self he) ;;;
+      c2 <- (if negb (ohs_ex_repeated sh) then ow_log_msg log_on connp c1 else ow_ret c1) ;;
+      if ohs_ex_repeated sh && negb (rep <? c_ow_MAX_HEADERS_REPETITIONS) then
+        free_h ;;; ow_ret (true, c2, tx, rep)
+      else
+        let rep1 := if ohs_ex_repeated sh then S rep else rep in
+        if ohs_is_cl sh then
+          ow_use (ohd_value he) ;;; ow_use (ohd_value h) ;;;
+          c3 <- (if ohs_cl_ambiguous sh then ow_log_msg log_on connp c2 else ow_ret c2) ;;
+          free_h ;;; ow_ret (true, c3, tx, rep1)
+        else
+          nv <- ow_bstr_expand (ohd_value he) false false ;;
+          match nv with
+          | None => free_h ;;; ow_ret (false, c2, tx, rep1)
+          | Some _ =>
+            ow_use nv ;;; ow_use (ohd_value h) ;;;
+            free_h ;;;
+            ow_ret (true, c2, otx_set_res_hdrs tx (otx_res_hdrs tx) (ow_hv_set_value (otx_res_hvals tx) i nv), rep1)
+          end
+    | None =>
+      match otx_res_hdrs tx with
+      | None => free_h ;;; ow_ret (false, c1, tx, rep)                  (* htp_table_add refuses a NULL table *)
+      | Some t =>
+        a <- ow_table_add t (ohd_name h) ;;
+        if fst a then ow_ret (true, c1, otx_set_res_hdrs tx (Some (snd a)) (otx_res_hvals tx ++ [h]), rep)
+        else free_h ;;; ow_ret (false, c1, otx_set_res_hdrs tx (Some (snd a)) (otx_res_hvals tx), rep)
+      end
+    end
+  end.
+
+(* ------------------------------------------------------------------ htp_response.c: buffering *)
+Definition ocp_set_out_buf (p : ow_connp) (b : ow_oid) : ow_connp :=
+  ow_mk_connp (ocp_self p) (ocp_conn p) (ocp_in_buf p) b (ocp_in_hdr p) (ocp_out_hdr p) (ocp_put_file p).
+
+(* htp_connp_res_buffer: first piece malloc, later pieces realloc; no test for an empty piece (orb_len0 is not looked at) *)
+Definition ow_res_buffer (log_on : bool) (sh : ow_rbshape) (out_tx : ow_oid) (p : ow_connp) : ow_M (bool * ow_connp) :=
+  ow_use (ocp_self p) ;;;
+  if negb (orb_has_data sh) then ow_ret (true, p) else
+  (if ow_isnull (ocp_out_hdr p) then ow_ret tt else ow_use (ocp_out_hdr p)) ;;;
+  ow_use out_tx ;;;
+  if orb_over sh then
+    match ocp_conn p with
+    | None => ow_use None ;;; ow_ret (false, p)
+    | Some c => c1 <- ow_log_msg log_on (ocp_self p) c ;; ow_ret (false, ocp_set_conn p (Some c1))
+    end
+  else
+    if ow_isnull (ocp_out_buf p) then
+      b <- ow_malloc ;;
+      match b with
+      | None => ow_ret (false, p)
+      | Some _ => ow_use b ;;; ow_ret (true, ocp_set_out_buf p b)
+      end
+    else
+      b <- ow_realloc (ocp_out_buf p) ;;
+      match b with
+      | None => ow_ret (false, p)
+      | Some _ => ow_use b ;;; ow_ret (true, ocp_set_out_buf p b)
+      end.
+
+(* htp_connp_res_consolidate_data: buffers the current piece only when something is buffered already *)
+Definition ow_res_consolidate (log_on : bool) (sh : ow_rbshape) (out_tx : ow_oid) (p : ow_connp) : ow_M (bool * ow_connp) :=
+  ow_use (ocp_self p) ;;;
+  if ow_isnull (ocp_out_buf p) then ow_ret (true, p) else ow_res_buffer log_on sh out_tx p.
+
+(* htp_connp_res_clear_buffer *)
+Definition ow_res_clear_buffer (p : ow_connp) : ow_M ow_connp :=
+  ow_use (ocp_self p) ;;;
+  if ow_isnull (ocp_out_buf p) then ow_ret p else ow_free (ocp_out_buf p) ;;; ow_ret (ocp_set_out_buf p None).
+
+(* ------------------------------------------------------------------ htp_decompressors.c: create / destroy *)
+(* odc_aux: the cells of the decompression engine, in the order its end function releases them (zlib: the window when
+   there is one, then the inflate state; LZMA: probs, dictionary; nothing for LZMA before the header was read) *)
+Record ow_dec := ow_mk_dec { odc_self : ow_oid; odc_buf : ow_oid; odc_aux : list ow_oid }.
+Definition c_ow_fmt_gzip := 1.  Definition c_ow_fmt_deflate := 2.  Definition c_ow_fmt_lzma := 3.
+
+(* htp_gzip_decompressor_create; lzma_on: cfg->lzma_memlimit > 0 && cfg->response_lzma_layer_limit > 0.
+   inflateInit2 makes one allocation (the inflate state); when it fails inflateEnd finds no state to release *)
+Definition ow_decompressor_create (log_on lzma_on : bool) (fmt : nat) (connp : ow_oid) (c : ow_conn) : ow_M (option ow_dec * ow_conn) :=
+  d <- ow_malloc ;;
+  match d with
+  | None => ow_ret (None, c)
+  | Some _ =>
+    b <- ow_malloc ;;
+    match b with
+    | None => ow_free d ;;; ow_ret (None, c)
+    | Some _ =>
+      if fmt =? c_ow_fmt_lzma then
+        ow_use connp ;;;
+        c1 <- (if lzma_on then ow_ret c else ow_log_msg log_on connp c) ;;
+        ow_ret (Some (ow_mk_dec d b []), c1)
+      else if (fmt =? c_ow_fmt_gzip) || (fmt =? c_ow_fmt_deflate) then
+        z <- ow_malloc ;;
+        match z with
+        | None => c1 <- ow_log_msg log_on connp c ;; ow_free b ;;; ow_free d ;;; ow_ret (None, c1)
+        | Some _ => ow_ret (Some (ow_mk_dec d b [z]), c)
+        end
+      else
+        c1 <- ow_log_msg log_on connp c ;; ow_free b ;;; ow_free d ;;; ow_ret (None, c1)
+    end
+  end.
+
+(* htp_gzip_decompressor_destroy *)
+Definition ow_decompressor_destroy (d : ow_dec) : ow_M unit :=
+  ow_use (odc_self d) ;;; ow_iter ow_free (odc_aux d) ;;; ow_free (odc_buf d) ;;; ow_free (odc_self d).
+
+(* htp_tx_res_destroy_decompressors / htp_tx_req_destroy_decompressors: the chain, front to back *)
+Definition ow_destroy_decompressors (l : list ow_dec) : ow_M unit := ow_iter ow_decompressor_destroy l.
+
+(* the connection parser with its two decompressor chains *)
+Record ow_connp2 := ow_mk_connp2 { ocq_p : ow_connp; ocq_out : list ow_dec; ocq_req : list ow_dec }.
+
+(* htp_connp_destroy_all = htp_conn_destroy + htp_connp_destroy, with the chains *)
+Definition ow_connp2_destroy_all (q : ow_connp2) : ow_M unit :=
+  let p := ocq_p q in
+  ow_use (ocp_self p) ;;;
+  ow_conn_destroy (ocp_conn p) ;;;
+  ow_free (ocp_in_buf p) ;;;
+  ow_free (ocp_out_buf p) ;;;
+  ow_destroy_decompressors (ocq_out q) ;;;
+  ow_destroy_decompressors (ocq_req q) ;;;
+  (match ocp_put_file p with
+   | None => ow_ret tt
+   | Some f => ow_use (ofl_self f) ;;; ow_free (ofl_name f) ;;; ow_free (ofl_self f)
+   end) ;;;
+  ow_free (ocp_in_hdr p) ;;;
+  ow_free (ocp_out_hdr p) ;;;
+  ow_free (ocp_self p).
+
+(* ------------------------------------------------------------------ htp_tx_state_response_headers (htp_transaction.c) *)
+(* one token of a Content-Encoding value on the slow path *)
+Inductive ow_cetok :=
+  | OwCeFmt (fmt : nat) (abnormal : bool)     (* gzip / deflate (abnormal spelling: a log message) / lzma *)
+  | OwCeNone                                  (* inflate, none *)
+  | OwCeUnknown                               (* a log message, no decompressor *)
+  | OwCeStop.                                 (* layer limit or LZMA layer limit reached: a log message, end of the loop *)
+
+(* oce_fast: 0 = no compression asked for (no header, "inflate", decompression disabled), 1..3 = the fast path with that
+   format; oce_multi: the slow path with these tokens *)
+Record ow_ceshape := ow_mk_ceshape { oce_fast : nat; oce_multi : bool; oce_toks : list ow_cetok }.
+
+(* the loop; chain: the decompressors made so far, result (HTP_OK?, conn, chain) *)
+Fixpoint ow_ce_loop (log_on lzma_on : bool) (toks : list ow_cetok) (connp : ow_oid) (c : ow_conn) (chain : list ow_dec)
+  : ow_M (bool * ow_conn * list ow_dec) :=
+  match toks with
+  | [] => ow_ret (true, c, chain)
+  | OwCeStop :: _ => c1 <- ow_log_msg log_on connp c ;; ow_ret (true, c1, chain)
+  | OwCeNone :: r => ow_ce_loop log_on lzma_on r connp c chain
+  | OwCeUnknown :: r => c1 <- ow_log_msg log_on connp c ;; ow_ce_loop log_on lzma_on r connp c1 chain
+  | OwCeFmt fmt abnormal :: r =>
+    c1 <- (if abnormal then ow_log_msg log_on connp c else ow_ret c) ;;
+    x <- ow_decompressor_create log_on lzma_on fmt connp c1 ;;
+    match fst x with
+    | None => ow_ret (false, snd x, chain)
+    | Some d => ow_use (odc_self d) ;;; ow_ce_loop log_on lzma_on r connp (snd x) (chain ++ [d])
+    end
+  end.
+
+(* with no RESPONSE_HEADERS callback and no data receiver registered; tx: the transaction (its header table is read) *)
+Definition ow_tx_state_response_headers (log_on lzma_on : bool) (sh : ow_ceshape) (tx : ow_oid) (q : ow_connp2) : ow_M (bool * ow_connp2) :=
+  let p := ocq_p q in
+  ow_use tx ;;; ow_use (ocp_self p) ;;;
+  match ocp_conn p with
+  | None => ow_use None ;;; ow_ret (false, q)
+  | Some c =>
+    if (oce_fast sh =? 0) && negb (oce_multi sh) then ow_ret (true, q) else
+    (if match ocq_out q with [] => true | _ => false end then ow_ret tt else ow_destroy_decompressors (ocq_out q)) ;;;
+    if negb (oce_multi sh) then
+      x <- ow_decompressor_create log_on lzma_on (oce_fast sh) (ocp_self p) c ;;
+      match fst x with
+      | None => ow_ret (false, ow_mk_connp2 (ocp_set_conn p (Some (snd x))) [] (ocq_req q))
+      | Some d => ow_use (odc_self d) ;;; ow_ret (true, ow_mk_connp2 (ocp_set_conn p (Some (snd x))) [d] (ocq_req q))
+      end
+    else
+      r <- ow_ce_loop log_on lzma_on (oce_toks sh) (ocp_self p) c [] ;;
+      let '(ok, c1, chain) := r in
+      ow_ret (ok, ow_mk_connp2 (ocp_set_conn p (Some c1)) chain (ocq_req q))
+  end.
+
 (* ------------------------------------------------------------------ cases (harness protocol, mirrored by harness/own2_driver.c) *)
 (* a hostport shape is 6 numbers *)
 Definition ow_hpshape_of (a : list nat) (i : nat) : ow_hpshape :=
@@ -317,6 +528,131 @@ Definition ow_case_request_line (a : list nat) (k : nat) :=
                 ow_ret [fst r]
               end).
 
+(* ---- response headers: descriptions as in ow_case_header (5 numbers each).
+   args: log on, number of descriptions in the setup, number observed, then the descriptions *)
+Fixpoint ow_res_headers_n (n : nat) (log_on : bool) (a : list nat) (i : nat) (p : ow_connp) (rep : nat) (acc : list nat)
+  : ow_M (ow_connp * nat * list nat) :=
+  match n with
+  | O => ow_ret (p, rep, acc)
+  | S m =>
+    r <- ow_with_in_tx p (9, rep) (fun c tx =>
+           x <- ow_process_response_header log_on (ow_hshape_of a i) (ocp_self p) c tx rep ;;
+           let '(ok, c1, tx1, rep1) := x in ow_ret ((ow_b2n ok, rep1), c1, tx1)) ;;
+    ow_res_headers_n m log_on a (i + 5) (snd r) (snd (fst r)) (acc ++ [fst (fst r)])
+  end.
+
+Definition ow_case_res_header (a : list nat) (k : nat) :=
+  let log_on := ow_nb (ow_arg a 0) in
+  ow_case (p <- ow_connp_with_tx ;;
+           match p with
+           | None => ow_ret None
+           | Some p => r <- ow_res_headers_n (ow_arg a 1) log_on a 3 p 0 [] ;; ow_ret (Some (fst r))
+           end) k
+    (fun w => match w with
+              | None => ow_ret [9]
+              | Some (p, rep) =>
+                r <- ow_res_headers_n (ow_arg a 2) log_on a (3 + 5 * ow_arg a 1) p rep [] ;;
+                ow_connp_destroy_all (Some (fst (fst r))) ;;; ow_ret (snd r)
+              end).
+
+(* ---- response buffering.  args: log on, calls, the last call is over the hard limit, the calls after the first go
+   through htp_connp_res_consolidate_data, htp_connp_res_clear_buffer before the parser is destroyed *)
+Fixpoint ow_res_buffer_n (n : nat) (log_on over_last cons first : bool) (p : ow_connp) (acc : list nat) : ow_M (ow_connp * list nat) :=
+  match n with
+  | O => ow_ret (p, acc)
+  | S m =>
+    let out_tx := match ocp_conn p with
+                  | Some c => match ow_split_last (ocn_txs c) with Some (_, Some tx) => otx_self tx | _ => None end
+                  | None => None end in
+    let sh := ow_mk_rbshape true false (over_last && (m =? 0)) in
+    r <- (if cons && negb first then ow_res_consolidate log_on sh out_tx p else ow_res_buffer log_on sh out_tx p) ;;
+    ow_res_buffer_n m log_on over_last cons false (snd r) (acc ++ [ow_b2n (fst r)])
+  end.
+Definition ow_case_res_buffer (a : list nat) (k : nat) :=
+  ow_case ow_connp_with_tx k
+    (fun p => match p with
+              | None => ow_ret [9]
+              | Some p =>
+                r <- ow_res_buffer_n (ow_arg a 1) (ow_nb (ow_arg a 0)) (ow_nb (ow_arg a 2)) (ow_nb (ow_arg a 3)) true p [] ;;
+                p1 <- (if ow_nb (ow_arg a 4) then ow_res_clear_buffer (fst r) else ow_ret (fst r)) ;;
+                ow_connp_destroy_all (Some p1) ;;; ow_ret (snd r ++ [ow_nullbit (ocp_out_buf p1)])
+              end).
+
+(* ---- decompressors.  args: log on, LZMA enabled, format; the decompressor is created and destroyed *)
+Definition ow_case_decomp_create (a : list nat) (k : nat) :=
+  ow_case ow_connp_create k
+    (fun p => match p with
+              | None => ow_ret [9]
+              | Some p =>
+                match ocp_conn p with
+                | None => ow_ret [9]
+                | Some c =>
+                  x <- ow_decompressor_create (ow_nb (ow_arg a 0)) (ow_nb (ow_arg a 1)) (ow_arg a 2) (ocp_self p) c ;;
+                  (match fst x with None => ow_ret tt | Some d => ow_decompressor_destroy d end) ;;;
+                  ow_connp_destroy_all (Some (ocp_set_conn p (Some (snd x)))) ;;;
+                  ow_ret [ow_optbit (fst x); length (ocn_msgs (snd x))]
+                end
+              end).
+
+(* args: format.  A decompressor that has seen data: zlib has allocated its window, LZMA its probabilities and dictionary *)
+Definition ow_case_decomp_used (a : list nat) (k : nat) :=
+  ow_case (p <- ow_connp_with_tx ;;
+           match p with
+           | None => ow_ret None
+           | Some p =>
+             match ocp_conn p with
+             | None => ow_ret None
+             | Some c =>
+               x <- ow_decompressor_create false true (ow_arg a 0) (ocp_self p) c ;;
+               match fst x with
+               | None => ow_ret None
+               | Some d =>
+                 e1 <- ow_malloc ;; e2 <- (if ow_arg a 0 =? c_ow_fmt_lzma then ow_malloc else ow_ret None) ;;
+                 ow_ret (Some (ow_mk_connp2 p [ow_mk_dec (odc_self d) (odc_buf d) (if ow_arg a 0 =? c_ow_fmt_lzma then [e1; e2] else e1 :: odc_aux d)] []))
+               end
+             end
+           end) k
+    (fun q => match q with
+              | None => ow_ret [9]
+              | Some q => ow_connp2_destroy_all q ;;; ow_ret [length (ocq_out q)]
+              end).
+
+(* ---- htp_tx_state_response_headers.  args: log on, LZMA enabled, a chain exists already (one gzip decompressor),
+   the fast-path format, slow path, then the tokens: 1 gzip 2 deflate 3 lzma 11 / 12 abnormal spelling 4 none 5 unknown 6 stop *)
+Definition ow_cetok_of (n : nat) : ow_cetok :=
+  match n with
+  | 1 => OwCeFmt 1 false | 2 => OwCeFmt 2 false | 3 => OwCeFmt 3 false
+  | 11 => OwCeFmt 1 true | 12 => OwCeFmt 2 true
+  | 4 => OwCeNone | 5 => OwCeUnknown | _ => OwCeStop
+  end.
+Definition ow_in_tx_of (p : ow_connp) : ow_oid :=
+  match ocp_conn p with
+  | Some c => match ow_split_last (ocn_txs c) with Some (_, Some tx) => otx_self tx | _ => None end
+  | None => None end.
+Definition ow_case_res_state_headers (a : list nat) (k : nat) :=
+  let log_on := ow_nb (ow_arg a 0) in let lzma_on := ow_nb (ow_arg a 1) in
+  ow_case (p <- ow_connp_with_tx ;;
+           match p with
+           | None => ow_ret None
+           | Some p0 =>
+             (* the Content-Encoding header of the transaction, when the case has one *)
+             h <- (if ow_nb (ow_arg a 2) || ow_nb (ow_arg a 3) || ow_nb (ow_arg a 4)
+                   then ow_res_headers_n 1 false [0; 0; 0; 0; 0] 0 p0 0 [] else ow_ret (p0, 0, [])) ;;
+             let p := fst (fst h) in
+             if ow_nb (ow_arg a 2) then
+               r <- ow_tx_state_response_headers log_on lzma_on (ow_mk_ceshape 1 false []) (ow_in_tx_of p) (ow_mk_connp2 p [] []) ;;
+               ow_ret (Some (snd r))
+             else ow_ret (Some (ow_mk_connp2 p [] []))
+           end) k
+    (fun q => match q with
+              | None => ow_ret [9]
+              | Some q =>
+                r <- ow_tx_state_response_headers log_on lzma_on (ow_mk_ceshape (ow_arg a 3) (ow_nb (ow_arg a 4)) (map ow_cetok_of (skipn 5 a)))
+                       (ow_in_tx_of (ocq_p q)) q ;;
+                ow_connp2_destroy_all (snd r) ;;;
+                ow_ret [ow_b2n (fst r); length (ocq_out (snd r))]
+              end).
+
 Definition ow_run_case2 (fn : nat) (a : list nat) (k : nat) : ow_res (list nat) :=
   match fn with
   | 0 => ow_case_hostport a k
@@ -324,5 +660,10 @@ Definition ow_run_case2 (fn : nat) (a : list nat) (k : nat) : ow_res (list nat) 
   | 2 => ow_case_parse_uri a k
   | 3 => ow_case_normalize a k
   | 4 => ow_case_request_line a k
+  | 5 => ow_case_res_header a k
+  | 6 => ow_case_res_buffer a k
+  | 7 => ow_case_decomp_create a k
+  | 8 => ow_case_decomp_used a k
+  | 9 => ow_case_res_state_headers a k
   | _ => OwOk [] (ow_init ow_never)
   end.
